@@ -25,7 +25,8 @@ def prepare(repo, work):
     os.makedirs(dst)
     shutil.copytree(os.path.join(repo, "src"), os.path.join(dst, "src"))
     for f in ("Cargo.toml", "Cargo.lock"):
-        shutil.copy(os.path.join(repo, f), os.path.join(dst, f))
+        if os.path.exists(os.path.join(repo, f)):
+            shutil.copy(os.path.join(repo, f), os.path.join(dst, f))
     os.makedirs(os.path.join(dst, ".cargo"), exist_ok=True)
     open(os.path.join(dst, ".cargo", "config.toml"), "w").write("[net]\noffline = true\n")
     for h, target in APPEND.items():
